@@ -23,7 +23,12 @@ CLAIMED = {
    note="Trusts: the simulator's atomic-turn + prefix-visibility model of real threads (DESIGN §3.1), the scenario generator's host-side model of expected values, the SimTransport's FIFO/reliable channel model. The native mpsc transport, io_uring backend and CLI glue run as stubs.",
    technique="deterministic simulation: seeded schedule/configuration search with reference-run and model comparison, bounded liveness on a fair tail"),
 }
-PENDING = {k: 'claimed in DESIGN.md; check under construction in this revision (not yet registered)' for k in ['C04','C05','C06','C10','C11','C13','C14','C15']}
+CLAIMED["C04"] = dict(
+   text="Seeded search over interleavings of sends, spawns, completions, awaits and deliveries: generated message-passing scenarios (fan-in/out, pipelines, request/reply, filter and timeout-polling receivers, sends racing spawn, sends to finished processes) run on the real runtime under the simulated transport; receivers return their own receive logs, which must contain every sent message exactly once and each sender's messages in send order; after every decision monitors check conservation of each unique payload across queues and mailboxes, in-transit per-sender order, one in-flight SpawnAction/NotifySpawn per process parked in spawning, and that no parked select is missing a completion nobody is going to deliver; quiescence without the client's result (event-driven drive included) is a lost wake-up. Sampling, not proof.",
+   ref="DESIGN.md §6 C04",
+   note="Trusts: the atomic-turn + prefix-visibility model, the monitors' reading of executor state through the verif accessors, scenario templates that are deadlock-free by construction (every receive has a matching send). Transport loss/duplication is not injected because the real channels cannot produce it.",
+   technique="deterministic simulation: seeded interleaving search with history oracle (receive logs) and per-step conservation/FIFO/wake-up invariants")
+PENDING = {k: 'claimed in DESIGN.md; check under construction in this revision (not yet registered)' for k in ['C05','C06','C10','C11','C13','C14','C15']}
 
 def main():
     checks = []
